@@ -417,3 +417,12 @@ class C07(Monitor):
 
 
 MONITORS["C07"] = [C07]
+
+
+def _register_conveyor():
+    from . import conveyor_ref as cr
+    MONITORS["C12"] = [Avail, cr.C12]
+    MONITORS["C13"] = [Avail, cr.C13]
+
+
+_register_conveyor()
